@@ -268,6 +268,10 @@ class WorldDriver:
         if kind == 'create':
             _, shape, eid = op
             comps = [self.new(ctx, t) for t in shape]
+            # several components of one type in a single call become
+            # attached one after the other: each earlier one is replaced
+            if len({type(c) for c in comps}) < len(comps):
+                ctx.hits['same_type_twice_in_one_create'] += 1
             try:
                 rid = w.create_entity(*comps, entity_id=eid)
             except Exception as exc:
